@@ -155,7 +155,7 @@ func (w *sworld) evalPN(pc *search.PermanodeConstraint, b blob.Ref) bool {
 	}
 	if pc.Attr != "" {
 		vals := w.values(b, pc.Attr, pc.At)
-		if pc.NumValue != nil && !intMatches(pc.NumValue, int64(len(vals))) {
+		if pc.NumValue != nil && !intMatches(pc.NumValue, int64(len(w.valuesList(b, pc.Attr, pc.At)))) {
 			return false
 		}
 		if hasValueConstraint(pc) {
